@@ -632,3 +632,39 @@ func bubbleStacks() string {
 	}
 	return strings.Join(keep, "\n\n")
 }
+
+// Dump renders the event log and the per-connection wire logs for failure
+// messages.
+func (w *World) Dump() string {
+	var sb strings.Builder
+	for _, e := range w.Rec.Events() {
+		fmt.Fprintf(&sb, "  #%d t=%v %s peer=%s n=%d %s", e.Seq, e.T, e.K, e.Peer, e.N, e.Info)
+		if len(e.Data) > 0 {
+			fmt.Fprintf(&sb, " data=%x", clip(e.Data))
+		}
+		sb.WriteString("\n")
+	}
+	for _, c := range w.Net.Conns() {
+		st := c.Snapshot()
+		dir := "out"
+		if st.Inbound {
+			dir = "in"
+		}
+		fmt.Fprintf(&sb, "  conn %d %s %v->%v handed=%v localClosed=%v(#%d t=%v) remoteClosed=%v reset=%v consumed=%d/%d\n", st.ID, dir, st.Remote, st.Local, st.HandedOver, st.LocalClosed, st.CloseSeq, st.CloseAt, st.RemoteClosed, st.RemoteReset, st.Consumed, st.Delivered)
+		msgs, err := wire.ParseStream(st.Bytes())
+		for _, m := range msgs {
+			fmt.Fprintf(&sb, "    sent type=%d len=%d %x\n", m.Type, len(m.Body), clip(m.Body))
+		}
+		if err != nil {
+			fmt.Fprintf(&sb, "    stream error: %v\n", err)
+		}
+	}
+	for _, d := range w.Net.Dials() {
+		fmt.Fprintf(&sb, "  dial #%d t=%v -> %v plan=%v done=%v at %v cancelled=%v err=%s\n", d.Seq, d.At, d.Remote, d.Plan.Kind, d.Done, d.DoneAt, d.Cancelled, d.Err)
+	}
+	s := sb.String()
+	if len(s) > 6000 {
+		s = s[:6000] + "...\n"
+	}
+	return s
+}
